@@ -2,4 +2,4 @@ From Coq Require Import ExtrOcamlBasic.
 From Coq Require Import NArith List.
 From EZK Require Import Gen.Tables Lib.Bytes Model.C03 Model.C02.
 Extraction "../ocaml/gen/c02.ml" n2b b2n N.of_nat N.to_nat run_framed datagram_parse datagram_code handle_packet
-  udp_loop top_via dg_body_end_checked base_requires_via pull_next.
+  udp_loop top_via dg_body_end_checked base_requires_via pull_next second_pass stream_body_len_saved.
